@@ -2810,6 +2810,10 @@ void MessageMap::invalidateCache(Message* message) {
 void MessageMap::addPollMessage(bool toFront, Message* message) {
   if (message != nullptr && message->getPollPriority() > 0) {
     lock();
+    if (message->m_pollOrder < g_lastPollOrder) {
+      // ensure a message added later on is not preferred before all others until it has caught up
+      message->m_pollOrder = g_lastPollOrder + (toFront ? 0 : (unsigned int)message->getPollPriority());
+    }
     message->m_lastPollTime = toFront ? 0 : m_pollMessages.size();
     m_pollMessages.push(message);
     unlock();
